@@ -216,36 +216,48 @@ func runC15(c *Check) {
 	}
 	c.Floor("C15-R3", 20)
 
-	// R5: special target names
+	// R5: special target names: the string constants convertUnit compares its target-unit
+	// parameter with must all be known to Scale (or a helper it calls) as names that are not
+	// units, so that a value of unknown unit is not printed with "auto"/"minimum" as suffix
 	special := map[string]bool{}
 	skip := map[string]bool{}
-	for _, f := range pk.Syntax {
-		for _, d := range f.Decls {
-			fd, ok := d.(*ast.FuncDecl)
-			if !ok {
-				continue
-			}
-			switch fd.Name.Name {
-			case "convertUnit":
-				ast.Inspect(fd.Body, func(n ast.Node) bool {
-					if be, ok := n.(*ast.BinaryExpr); ok && be.Op == token.EQL {
-						if s, ok := litString(be.Y); ok && strings.Contains(exprStr(p.Fset, be.X), "toUnit") {
-							special[s] = true
-						}
+	if cu := p.Func("internal/measurement", "UnitType.convertUnit"); cu != nil && len(cu.Params) >= 4 {
+		target := cu.Params[3]
+		for _, g := range withHelpers(cu, 1) {
+			for _, b := range g.Blocks {
+				for _, ins := range b.Instrs {
+					cmp, ok := ins.(*ssa.BinOp)
+					if !ok || cmp.Op != token.EQL {
+						continue
 					}
-					return true
-				})
-			case "Scale":
-				ast.Inspect(fd.Body, func(n ast.Node) bool {
-					if cc, ok := n.(*ast.CaseClause); ok {
-						for _, e := range cc.List {
-							if s, ok := litString(e); ok {
-								skip[s] = true
+					for _, pair := range [][2]ssa.Value{{cmp.X, cmp.Y}, {cmp.Y, cmp.X}} {
+						if pair[0] == ssa.Value(target) {
+							if k, ok := constString(pair[1]); ok && k != "" {
+								special[k] = true
 							}
 						}
 					}
-					return true
-				})
+				}
+			}
+		}
+	}
+	if sc := p.Func("internal/measurement", "Scale"); sc != nil {
+		for _, g := range withHelpers(sc, 2) {
+			if g.Name() == "convertUnit" {
+				continue
+			}
+			for _, b := range g.Blocks {
+				for _, ins := range b.Instrs {
+					var ops []*ssa.Value
+					for _, op := range ins.Operands(ops) {
+						if op == nil || *op == nil {
+							continue
+						}
+						if k, ok := constString(*op); ok {
+							skip[k] = true
+						}
+					}
+				}
 			}
 		}
 	}
@@ -254,7 +266,7 @@ func runC15(c *Check) {
 	}
 	for _, s := range sortedBoolKeys(special) {
 		if skip[s] {
-			c.ok("C15-R5", "special:"+s, pos, "target mode "+s, "handled by convertUnit and printed without suffix by Scale for unknown units")
+			c.ok("C15-R5", "special:"+s, pos, "target mode "+s, "handled by convertUnit and known to Scale as a name that is not a unit")
 		} else {
 			c.bad("C15-R5", "special:"+s, pos, "target mode "+s+" is handled by convertUnit but Scale would print it as a unit suffix for values of unknown unit")
 		}
@@ -412,11 +424,25 @@ func addrPath(v ssa.Value) (ssa.Value, string) {
 			path = "." + f + path
 			v = x.X
 			continue
+		case *ssa.IndexAddr:
+			// element of a slice or array: the same element when the index is the same value
+			path = "[" + x.Index.Name() + "]" + path
+			v = x.X
+			continue
 		case *ssa.UnOp:
 			if x.Op == token.MUL {
 				// pointer loaded from a place: keep going only for plain local cells
 				if vals, ok := cellValues(x.X); ok && len(vals) == 1 {
 					v = vals[0]
+					continue
+				}
+				// a slice header or pointer read from a field: two reads of the same field of the
+				// same object denote the same place (the pairing rules only compare reads made in
+				// one loop iteration)
+				switch x.X.(type) {
+				case *ssa.FieldAddr, *ssa.IndexAddr:
+					path = "*" + path
+					v = x.X
 					continue
 				}
 			}
